@@ -169,6 +169,17 @@ claim("C17", "model_checking",
       "TLA+ contract spec (ExprContracts.tla: Subst/Eval of Expr.tla) evaluated by TLC over answers of the real "
       "match(); templates are TLC-generated behaviours of ExprGen.tla")
 
+claim("C07", "translation_validation",
+      "phases built by the real CodeBuilder for TLC-generated programs of the 'rewrite' profile are lowered by the "
+      "real create_ast_from_phase and rewritten by each real pass alone and by the four in the Fortran generator's "
+      "order; TLC runs the tree before and after top to bottom on every small input valuation and compares final "
+      "values of all original variables, the multiset of external calls, definedness of every read and uniqueness "
+      "of statement ids",
+      "trusted: tree exporter; fixed integer interpretation of function symbols; statement conditions are part of "
+      "the tree semantics",
+      "translation validation of the real rewriting passes against an executable TLA+ tree semantics (Rewrite.tla "
+      "over Expr.tla) with TLC; programs are TLC-generated behaviours of ProgGen.tla")
+
 NOT_YET = "check not built yet (work in progress, see DESIGN.md section 11)"
 NOT_APPLICABLE = {}
 
